@@ -709,7 +709,7 @@ def _compile_vectorized_unary_gradient(
         if is_full:
 
             def grad_exp(x: NDArray[np.floating]) -> NDArray[np.floating]:
-                return np.exp(x)
+                return _sanitize_derivatives(np.exp(x))
 
             return grad_exp
         else:
@@ -717,7 +717,7 @@ def _compile_vectorized_unary_gradient(
             def grad_exp_sparse(x: NDArray[np.floating]) -> NDArray[np.floating]:
                 result = np.zeros(n)
                 result[indices] = np.exp(x[indices])
-                return result
+                return _sanitize_derivatives(result)
 
             return grad_exp_sparse
 
@@ -762,7 +762,7 @@ def _compile_vectorized_unary_gradient(
         if is_full:
 
             def grad_sinh(x: NDArray[np.floating]) -> NDArray[np.floating]:
-                return np.cosh(x)
+                return _sanitize_derivatives(np.cosh(x))
 
             return grad_sinh
         else:
@@ -770,7 +770,7 @@ def _compile_vectorized_unary_gradient(
             def grad_sinh_sparse(x: NDArray[np.floating]) -> NDArray[np.floating]:
                 result = np.zeros(n)
                 result[indices] = np.cosh(x[indices])
-                return result
+                return _sanitize_derivatives(result)
 
             return grad_sinh_sparse
 
@@ -779,7 +779,7 @@ def _compile_vectorized_unary_gradient(
         if is_full:
 
             def grad_cosh(x: NDArray[np.floating]) -> NDArray[np.floating]:
-                return np.sinh(x)
+                return _sanitize_derivatives(np.sinh(x))
 
             return grad_cosh
         else:
@@ -787,7 +787,7 @@ def _compile_vectorized_unary_gradient(
             def grad_cosh_sparse(x: NDArray[np.floating]) -> NDArray[np.floating]:
                 result = np.zeros(n)
                 result[indices] = np.sinh(x[indices])
-                return result
+                return _sanitize_derivatives(result)
 
             return grad_cosh_sparse
 
